@@ -230,11 +230,25 @@ class EvalScn:
             issues.append({"aspect": "conc-locals", "kind": "impl-vs-spec", "method": c.get("mode"),
                            "detail": "%d concurrent executions of one rule entity, each returning its own tick(): got %s, expected %s | %s"
                                      % (pr.get("k"), pr.get("got"), pr.get("want"), pr.get("text"))})
+        if c.get("mode") == "parse":
+            # token strings under arbitrary (also damaged) bracketings: the grammar model of the driver
+            # and the real parser must agree on whether the string is an expression at all
+            rej = any((sh or {}).get("reject") for sh in (o or {}).get("shapes") or [])
+            if c.get("build") and not rej:
+                return [{"aspect": "parse", "kind": "impl-vs-spec", "method": "parse",
+                         "detail": "the parser rejects a token string that is an expression of the language: %s | text: %s"
+                                   % (c["build"][:200], (c.get("text") or "")[:300])}]
+            if rej and not c.get("build"):
+                return [{"aspect": "parse", "kind": "impl-vs-spec", "method": "parse",
+                         "detail": "the parser accepts a token string that is not an expression of the language | text: %s"
+                                   % (c.get("text") or "")[:300]}]
+            if rej:
+                return issues
         if c.get("build"):
             return [{"aspect": "build", "kind": "impl-vs-model", "method": c.get("mode"),
                      "detail": "generated text rejected: %s" % c["build"][:300]}]
         for k, sh in enumerate((o or {}).get("shapes") or []):
-            if not sh:
+            if not sh or sh.get("noast"):
                 continue
             nm = (c.get("rules") or [{}] * (k + 1))[k].get("hdr", {}).get("name")
             if sh.get("wk") is False:
